@@ -105,7 +105,7 @@ func TestVerif_C09(t *testing.T) {
 		dynamic := rng.Chance(50)
 		cfg := detRandomConfig(rng, dynamic)
 		cfg.Delta = uint16(rng.PickInt(1, 30, 100))
-		cfg.Count = rng.PickInt(1, 1, 2, 3)
+		cfg.Count = rng.PickInt(1, 1, 2, 3, 0) // count-thresh 0 is legal: every comparable frame is motion - but never an FFC frame
 		cfg.Temp = uint16(rng.PickInt(0, 2900, 3000))
 		cfg.Gap = rng.PickInt(1, 2, 3, 5, 45)
 		base := uint16(rng.PickInt(2800, 3000, 3300))
